@@ -202,6 +202,54 @@ func init() {
 				hs.Println(hs.CallE(hs.CallN("make"), hs.I(1))), hs.Println(hs.CallN("other", hs.I(1))),
 				hs.Println(hs.CallN("outer", hs.I(5))), hs.Println(hs.CallN("sibling", hs.I(5))))
 		}},
+		callCase{"exceptions-caught-in-the-frame-that-raised-them-below-pending-operands", func() *hs.Program {
+			// the operands that were pending inside the try when the exception was raised are gone,
+			// those pending outside it are still there - also after 600 rounds
+			thrower := func(v int64) hs.Expr {
+				return &hs.If{Cond: hs.Bin(">=", hs.V("base"), hs.I(0)), Then: hs.Blk(hs.I(v), hs.ES(hs.CallN("throw", hs.S("inline")))), Else: hs.Blk(hs.I(v))}
+			}
+			guarded := hs.Fn("guarded", hs.TInt, hs.Blk(&hs.Try{Body: hs.Blk(hs.Bin("+", hs.Bin("*", hs.V("base"), hs.I(100)), thrower(1))), Var: "e", Catch: hs.Blk(hs.V("d"))}), intP("base"), intP("d"))
+			loop := &hs.For{Var: "i", Iter: &hs.RangeLit{From: hs.I(0), To: hs.I(600)}, Body: hs.Blk(nil,
+				hs.ES(hs.Asg("+=", hs.V("n"), &hs.Try{Body: hs.Blk(hs.Bin("+", hs.I(1), thrower(2))), Var: "e", Catch: hs.Blk(hs.I(1))})))}
+			return mainOnly([]*hs.Func{guarded}, hs.LetS("base", hs.I(5)),
+				hs.Println(hs.Bin("+", hs.V("base"), &hs.Try{Body: hs.Blk(hs.Bin("+", hs.I(10), thrower(3))), Var: "e", Catch: hs.Blk(hs.I(7))})),
+				hs.Println(hs.Bin("+", hs.I(1000), hs.CallN("guarded", hs.I(3), hs.I(7)))),
+				hs.Println(hs.Bin("-", hs.Bin("*", hs.I(2), &hs.Try{Body: hs.Blk(hs.Bin("+", hs.I(20), hs.Bin("+", hs.I(30), thrower(4)))), Var: "e", Catch: hs.Blk(hs.MCall(hs.Mem(hs.V("e"), "message"), "len"))}), hs.I(1))),
+				hs.LetS("n", hs.I(0)), loop, hs.Println(hs.V("n"), hs.V("base")))
+		}},
+		callCase{"leaving-by-return-continue-break-below-pending-operands", func() *hs.Program {
+			// the operands of the enclosing expressions that were pending when the function or the
+			// iteration was left are not operands of what runs next
+			g := hs.Fn("g", hs.TInt, hs.Blk(hs.Bin("+", hs.I(1), &hs.BlockExpr{B: hs.Blk(nil, &hs.Return{X: hs.I(5)})})))
+			f := hs.Fn("f", hs.TInt, hs.Blk(hs.V("s"), hs.LetS("s", hs.I(0)),
+				&hs.For{Var: "i", Iter: &hs.RangeLit{From: hs.I(0), To: hs.V("n")}, Body: hs.Blk(nil,
+					hs.ES(hs.Asg("=", hs.V("s"), hs.Bin("+", hs.V("s"), hs.Bin("+", hs.I(10), &hs.If{Cond: hs.Bin("==", hs.V("i"), hs.I(1)), Then: hs.Blk(nil, &hs.Continue{}), Else: hs.Blk(hs.I(1))})))))}), intP("n"))
+			b := hs.Fn("b", hs.TInt, hs.Blk(hs.V("s"), hs.LetS("s", hs.I(0)),
+				&hs.Loop{Body: hs.Blk(nil,
+					hs.ES(hs.Asg("=", hs.V("s"), hs.Bin("+", hs.V("s"), hs.Bin("+", hs.I(10), &hs.If{Cond: hs.Bin(">", hs.V("s"), hs.V("n")), Then: hs.Blk(nil, &hs.Break{}), Else: hs.Blk(hs.I(1))})))))}), intP("n"))
+			return mainOnly([]*hs.Func{g, f, b},
+				hs.Println(hs.Bin("+", hs.I(100), hs.CallN("g"))),
+				hs.Println(hs.Bin("+", hs.I(100), hs.CallN("f", hs.I(3)))),
+				hs.Println(hs.Bin("+", hs.I(100), hs.CallN("b", hs.I(15)))))
+		}},
+		callCase{"function-literal-called-from-deeper-blocks-than-it-was-created-in", func() *hs.Program {
+			// the caller's locals - those of the blocks opened after the literal was created too -
+			// are what they were when the call returns
+			lit := &hs.FnLit{Params: []hs.Field{{Name: "a", T: hs.TInt}}, Ret: hs.TInt, Body: hs.Blk(hs.Bin("*", hs.V("y"), hs.I(2)), hs.LetS("y", hs.Bin("+", hs.V("a"), hs.I(1))))}
+			deeper := &hs.BlockExpr{B: hs.Blk(nil, hs.LetS("z", hs.I(5)), hs.Println(hs.CallN("c", hs.V("z"))), hs.Println(hs.V("z"), hs.V("x")),
+				hs.ES(&hs.BlockExpr{B: hs.Blk(nil, hs.LetS("w", hs.I(6)), hs.Println(hs.CallN("c", hs.V("w"))), hs.Println(hs.V("w"), hs.V("z"), hs.V("x")))}),
+				&hs.For{Var: "i", Iter: &hs.RangeLit{From: hs.I(0), To: hs.I(2)}, Body: hs.Blk(nil, hs.LetS("k", hs.Bin("+", hs.V("i"), hs.V("z"))), hs.Println(hs.CallN("c", hs.V("k")), hs.V("k"), hs.V("i")))})}
+			return mainOnly(nil, hs.LetS("x", hs.I(1)),
+				hs.ES(&hs.BlockExpr{B: hs.Blk(nil, hs.LetS("c", lit), hs.ES(deeper), hs.Println(hs.CallN("c", hs.V("x")), hs.V("x")))}))
+		}},
+		callCase{"function-values-whose-parameter-names-differ-from-the-expected-type", func() *hs.Program {
+			// arguments are passed by position, whatever the parameters of the function value are called
+			ft := hs.TFn(hs.TStr, hs.Field{Name: "a", T: hs.TInt}, hs.Field{Name: "b", T: hs.TStr})
+			ap := hs.Fn("apply", hs.TStr, hs.Blk(hs.CallN("f", hs.I(1), hs.S("s"))), hs.P("f", ft))
+			same := hs.Fn("same", hs.TStr, hs.Blk(hs.Bin("+", hs.V("b"), hs.MCall(hs.V("a"), "to_string"))), intP("a"), hs.P("b", hs.TStr))
+			lit := &hs.FnLit{Params: []hs.Field{{Name: "a", T: hs.TInt}, {Name: "b", T: hs.TStr}}, Ret: hs.TStr, Body: hs.Blk(hs.Bin("+", hs.MCall(hs.V("a"), "to_string"), hs.V("b")))}
+			return mainOnly([]*hs.Func{ap, same}, hs.Println(hs.CallN("apply", hs.V("same"))), hs.Println(hs.CallN("apply", lit)))
+		}},
 		callCase{"function-as-argument", func() *hs.Program {
 			ft := hs.TFn(hs.TInt, hs.Field{Name: "x", T: hs.TInt})
 			ap := hs.Fn("apply", hs.TInt, hs.Blk(hs.CallN("f", hs.CallN("f", hs.V("v")))), hs.P("f", ft), intP("v"))
